@@ -93,6 +93,14 @@ func standardPhases(mons []string, suffix int, thorough bool) []Phase {
 				}
 			}
 		}
+		// what a node reports for old blocks when it keeps them in a database behind a tiny cache
+		var bn []sched.Item
+		for _, base := range []string{scStatic3, scJoin3, scLeave4, scLate4} {
+			for _, cache := range []int{20, 25, 40, 101} {
+				bn = append(bn, sched.Item{Scenario: fmt.Sprintf("badgernode:0:%d:%s", cache, base), Mode: "s3", Mons: mons, Suffix: suffix})
+			}
+		}
+		add("node 0 on a BadgerStore with cache 20/25/40/101 (just above the in-flight window: what it reports for old blocks comes from the database): static3, join3to4, leave4to3, late witness, d=0", bn)
 		add("a validator (2 of 3 / 3 of 4) on Badger with fast-sync enabled stops at d (d=10..60) and is restarted with bootstrap 0/12/30 steps later, then runs Node.fastForward (anchor behind, at or ahead of its own last block)", fb)
 	}
 	if !thorough {
